@@ -19,7 +19,9 @@ RULE = ("operations connect, capability, listscripts, getscript, putscript, chec
         "script bodies with protocol look-alike lines OK / NO \"x\" / BYE / {5} / \"a\" ACTIVE, "
         "binary-ish and multi-byte content) x segmentations: every single cut point, every "
         "pair of cut points for streams <= 48 bytes, recv() capped at 1/2/3/7/64 bytes, 20 "
-        "random k-way splits. Non-trivial = segmented execution (not the whole-delivery "
+        "random k-way splits; plus boundary replies whose total length is 4096/8192/12288 "
+        "-2..+2 octets (getscript literal, 41-entry listing, status with literal text) under "
+        "whole delivery, caps 1..4096, cuts around every block boundary. Non-trivial = segmented execution (not the whole-delivery "
         "baseline); distinct = distinct (op, stream, segmentation).")
 ASSUMPTIONS = [
     "the baseline is single-segment delivery of the same stream; only *differences* between "
@@ -27,9 +29,10 @@ ASSUMPTIONS = [
     "recv() never blocks: an exhausted stream raises socket.timeout",
 ]
 FLOORS = {
-    "quick": {"segmented-executions": 30000, "cut-inside-literal": 3000, "streams": 150},
+    "quick": {"segmented-executions": 30000, "cut-inside-literal": 3000, "streams": 150,
+              "boundary-streams-exact-multiple-of-read-size": 12},
     "thorough": {"segmented-executions": 1500000, "cut-inside-literal": 100000,
-                 "streams": 3000},
+                 "streams": 3000, "boundary-streams-exact-multiple-of-read-size": 12},
 }
 SHARD_TIMEOUT = {"quick": 600, "thorough": 3000}
 
@@ -155,12 +158,63 @@ def plan(tier, seed):
     shards = [{"w": "replies", "n": e - s, "rs": seed * 1000003 + i}
               for i, (s, e) in enumerate(split(n, k))]
     shards.append({"w": "connect", "rs": seed})
+    shards += [{"w": "boundary", "part": i, "of": 8, "rs": seed * 977 + 5} for i in range(8)]
     return shards
+
+
+READ_SIZES = (4096, 8192, 12288)
+
+
+def boundary_corpus(rng):
+    """Replies whose total length sits on / next to a multiple of the client's read size
+    (Client.read_size = 4096): with whole delivery one recv() returns exactly a full block
+    and nothing more is pending, although the reply is complete."""
+    out = []
+    for target in READ_SIZES:
+        for delta in (-2, -1, 0, 1, 2):
+            want = target + delta
+            for kind in ("OK", "NO"):
+                st = ms.status(kind, rng.choice(CODES), rng.choice(TEXTS), "quoted")
+                # getscript: literal body padded so that the whole reply is `want` bytes
+                if kind == "OK":
+                    for n in range(want, 0, -1):
+                        body = b"{%d}\r\n" % n + (b"# pad\r\n" * (n // 7 + 1))[:n] + ms.CRLF
+                        if len(body) + len(st) == want:
+                            out.append(("getscript", ("x",), body + st))
+                            break
+                        if len(body) + len(st) < want:
+                            break
+                    # listscripts: many names, the last one padded
+                    lines = b"".join(ms.enc_string(b"script-%d" % i, "quoted") + ms.CRLF
+                                     for i in range(40))
+                    room = want - len(lines) - len(st) - 4
+                    if room > 0:
+                        out.append(("listscripts", (), lines + b'"' + b"n" * room + b'"' + ms.CRLF + st))
+                # status-only operation: the human-readable text is a padded literal
+                for op, args in (("deletescript", ("x",)), ("putscript", ("x", "keep;"))):
+                    for n in range(want, 0, -1):
+                        stx = ms.status(kind, b"TAG", b"t" * n, "literal")
+                        if len(stx) == want:
+                            out.append((op, args, stx))
+                            break
+                        if len(stx) < want:
+                            break
+    return out
 
 
 def run_replies(shard, res: Result, tier):
     rng = random.Random(shard["rs"])
-    for op, args, stream in reply_corpus(rng, shard["n"]):
+    if shard["w"] == "boundary":
+        corpus = boundary_corpus(rng)
+        corpus = [c for i, c in enumerate(corpus) if i % shard["of"] == shard["part"]]
+    else:
+        corpus = reply_corpus(rng, shard["n"])
+    for op, args, stream in corpus:
+        if shard["w"] == "boundary":
+            res.count("boundary-streams")
+            res.observe("boundary-stream-lengths", str(len(stream)))
+            if len(stream) % 4096 == 0:
+                res.count("boundary-streams-exact-multiple-of-read-size")
         base = execute(op, args, stream, ms.Seg())
         if base is None:
             res.inconclusive.append("auth failed")
@@ -171,7 +225,12 @@ def run_replies(shard, res: Result, tier):
         segs = segmentations(min(total, len(stream) + 4), rng, tier)
         if len(stream) > 200:
             segs = [s for s in segs if s[0] != "cut" or s[1][0] % 3 == 0 or
-                    any(a - 2 <= s[1][0] <= e + 2 for a, e in spans)]
+                    any(a - 2 <= s[1][0] <= a + 2 or e - 2 <= s[1][0] <= e + 2
+                        for a, e in spans)]
+        if len(stream) > 2000:
+            segs = [s for s in segs if s[0] != "cut" or s[1][0] % 257 == 0 or
+                    s[1][0] > len(stream) - 8 or abs(s[1][0] % 4096 - 4096) <= 2
+                    or s[1][0] % 4096 <= 2] + [("cap", 1000), ("cap", 4095), ("cap", 4096)]
         for kind, p in segs:
             got = execute(op, args, stream, mkseg(kind, p))
             res.count("segmented-executions")
@@ -292,7 +351,7 @@ def run_shard(tier, shard, res: Result):
 
 
 def _run_shard(tier, shard, res: Result):
-    if shard["w"] == "replies":
+    if shard["w"] in ("replies", "boundary"):
         run_replies(shard, res, tier)
     else:
         run_connect(shard, res)
